@@ -965,9 +965,9 @@ def install(reg):
                 raise RaiseSig(RuntimeError("index_add_: number of indices must equal source.size(dim)"))
         q = z3.Int("n!ia")
         ifn, sfn, ofn = index.fn, source.fn, out.fn
-        bad = z3.Exists([q], z3.And(q >= 0, q < n_idx, z3.Or(lift(ifn(q)) < 0, lift(ifn(q)) >= n_out)))
-        if ctx.branch(bad):
-            raise RaiseSig(IndexError("index out of range in self"))
+        # torch raises IndexError for an out-of-range index: a safety obligation (stable name) instead of an exceptional path
+        ctx.prove("index_add_:every-index-in-range",
+                  z3.ForAll([q], z3.Implies(z3.And(q >= 0, q < n_idx), z3.And(lift(ifn(q)) >= 0, lift(ifn(q)) < n_out))), kind="safety")
         if is_cx(source) or is_cx(out):
             raise OutOfSubset("complex index_add_")
 
